@@ -315,6 +315,14 @@ def fmt(s):
 def main():
     tier = sys.argv[1] if len(sys.argv) > 1 and not sys.argv[1].startswith("--") else "quick"
     run = Run(PID, tier)
+    try:
+        return body(run, tier)
+    finally:                      # also on MachineryError: leave nothing under /tmp
+        import shutil
+        shutil.rmtree(run.workdir, ignore_errors=True)
+
+
+def body(run, tier):
     workdir = run.workdir
     loop = cascade.get_loop()         # builds the functions + extracts the constants (MachineryError if not found)
     consts = cascade.constants_summary(loop.C)
